@@ -59,8 +59,9 @@ def run_once(spec, scramble):
             pyr.random()
     cfg, info = gen.build(spec)
     try:
-        tree = tree_mod.DemeTree(cfg)
-        tree.run()
+        with common.time_limit(common.RUN_LIMIT):
+            tree = tree_mod.DemeTree(cfg)
+            tree.run()
         dg, n = tree_digest(tree)
         return {"digest": dg, "individuals": n, "demes": sum(len(l) for l in tree._levels), "m": int(tree.metaepoch_count), "error": None}
     except Exception as ex:
